@@ -158,6 +158,7 @@ func runTRaw(r *Run, s *TSpec) (*tSummary, error) {
 	os.MkdirAll(tmp, 0o755)
 	sums := make([]*tSummary, shards)
 	logs := make([]string, shards)
+	failed := make([]bool, shards)
 	var wg sync.WaitGroup
 	limit := 10 * time.Minute
 	if !r.Quick() {
@@ -232,6 +233,7 @@ func runTRaw(r *Run, s *TSpec) (*tSummary, error) {
 			cmd.Stdout, cmd.Stderr = &buf, &buf
 			runErr := cmd.Run()
 			logs[i] = buf.String()
+			failed[i] = runErr != nil
 			b, e := os.ReadFile(out)
 			if e != nil {
 				logs[i] += fmt.Sprintf("\n(no summary; %v)", runErr)
@@ -260,6 +262,12 @@ func runTRaw(r *Run, s *TSpec) (*tSummary, error) {
 			r.Logf("shard %d produced no summary:\n%s", i, lastLines(logs[i], 30))
 			r.Infra("tool shard %d produced no summary", i)
 			continue
+		}
+		if i < len(failed) && failed[i] && sum.Violation == nil && len(sum.Inconcl) == 0 && len(sum.ReplayFails) == 0 {
+			// the test binary failed but the check recorded nothing: a panic or an assertion inside
+			// the harness itself. Never a verdict about the property - and never silent.
+			r.Logf("shard %d failed without recording a violation (harness problem):\n%s", i, lastLines(filterDraws(logs[i]), 40))
+			r.Infra("tool shard %d failed without recording a violation (harness problem)", i)
 		}
 		tot.Evaluations += sum.Evaluations
 		tot.Nontrivial += sum.Nontrivial
@@ -319,6 +327,17 @@ func runTRaw(r *Run, s *TSpec) (*tSummary, error) {
 		tot.Samples = tot.Samples[:8]
 	}
 	return &tot, nil
+}
+
+// filterDraws drops rapid's draw log from a test log.
+func filterDraws(log string) string {
+	var out []string
+	for _, l := range strings.Split(log, "\n") {
+		if !strings.Contains(l, "[rapid] draw") {
+			out = append(out, l)
+		}
+	}
+	return strings.Join(out, "\n")
 }
 
 // runNativeFuzz runs `go test -fuzz` for the target; a crasher is copied to replays/ and
